@@ -21,14 +21,19 @@ With make_backup the file '<db>.bak' must equal, byte for byte, the database fil
 operation - also when the source raises at its p-th item - and must be a complete database: the history
 is continued on the restored copy and has to behave like the model of the pre-state.
 
-Out of scope of the main results (decided on the MODEL alone, before the real code runs):
+Kept out of the main results and run under their own ids (the split is decided on the MODEL alone, before
+the real code runs):
   * 'deep' updates - updates at which composing relations of ANY level yields a pair that two first-level
-    edges do not (known defect F10); they are run under the separate id C10.bounded.deep_update;
-  * an update that directly follows a rejected add_relation on the same connection (the rejected INSERT
-    leaves the FeatureDB connection inside a write transaction, and update() works through a second
-    connection: 'database is locked') - separate id C10.bounded.rejected_relation_then_update;
+    edges do not (defect F10: great-grandchildren filed at level 2; fixed in /repo by 285ec29, the result
+    fails on trees before that commit) -> C10.bounded.deep_update;
+  * a non-empty update that follows a rejected add_relation on the same FeatureDB object with no commit or
+    reopen in between (defect found by this stand-in: the rejected INSERT left the connection inside a write
+    transaction and update() works through a second connection -> OperationalError 'database is locked';
+    fixed in /repo by 7466199) -> C10.bounded.rejected_relation_then_update;
   * steps at which the model itself is undefined (duplicate under 'error', several merge candidates,
-    explicit id equal to a generated key = C05 known finding): the history is cut before such a step.
+    explicit id equal to a generated key = C05 known finding; for GTF an update that would change an
+    inferred transcript / gene extent - the statement of C10 does not say what update() owes to inferred
+    extents, the real code leaves them stale): the history is cut before such a step.
 
 Environment: inside a unit sqlite3.connect is wrapped to use a 0.05 s busy timeout and PRAGMA
 synchronous=OFF (durability knobs only: a lock held by another connection of the same thread is never
@@ -50,7 +55,7 @@ import gffutils
 from gffutils.feature import Feature
 from gffutils.exceptions import FeatureNotFoundError
 
-from contracts.spec_import import RefDB, Rec, real_snapshot
+from contracts.spec_import import RefDB, real_snapshot
 
 
 # --------------------------------------------------------------------------------------------------
@@ -279,11 +284,11 @@ class Model(object):
         def kids(p, level1):
             return [ref.F[c] for (pp, c, l) in ref.R if pp == p and (l == 1 or not level1) and c in ref.F
                     and ref.F[c].cols["featuretype"] == sub]
-        pairs = sorted(set((g, t) for (g, t, l) in ref.R if l == 1 and kids(t, True)), key=lambda x: (x[0], x[1]))
         # the transcript's own first-level children must include a subfeature, its first-level parent is g
+        pairs = sorted(set((g, t) for (g, t, l) in ref.R if l == 1 and kids(t, True)))
         derived = []
         last_g = None
-        for g, t in sorted(pairs, key=lambda x: x[0]):
+        for g, t in pairs:
             if not self.dt:
                 ex = kids(t, True)
                 derived.append(("transcript", ex, collections.OrderedDict([(ref.tk, [t]), (ref.gk, [g])])))
@@ -528,8 +533,9 @@ class Base(object):
 
 
 class Runner(object):
-    def __init__(self, d, cap=25):
+    def __init__(self, d, cap=25, allow=()):
         self.d = d
+        self.allow = set(allow)
         self.path = os.path.join(d, "h.db")
         self.cases = 0
         self.seen = set()
@@ -545,10 +551,12 @@ class Runner(object):
         if len(self.fails) < self.cap:
             self.fails.append({"case": case, "expected": expected, "observed": observed})
 
-    def plan(self, base, ops, want=None):
-        """model first: returns (steps, reason) where steps = [(op, expected exception kind, expected snapshot)]
-        for the longest prefix that is in scope; reason = why it was cut (None if complete)"""
+    def plan(self, base, ops):
+        """model first: returns (steps, cut_op, reason, model) where steps = [(op, expected exception kind, expected
+        snapshot)] for the longest prefix that is in scope, cut_op / reason = the first step out of scope and why (None
+        if the history is complete), model = the model after the history (meaningful only if complete)"""
         m = base.model.copy()
+        m.allow |= self.allow
         steps = []
         for op in ops:
             try:
@@ -652,15 +660,15 @@ def unit_histories(U_):
         if base.problem:
             run.fail({"base": base.case()}, "create_db == model", base.problem)
         small, big = alphabet(False), alphabet(True)
+        small = [o for i, o in enumerate(small) if i not in (2, 10)]      # without merge-into-g1 and the direct g1->exon_1 edge
         if U_.thorough:
             plan = [(big, 3), (small, 4)]
         else:
-            small = [o for i, o in enumerate(small) if i not in (2, 10)]      # quick: without merge-into-g1 and the direct g1->exon_1 edge
             plan = [(big, 2), (small, 3)]
         for alpha, depth in plan:
             for seq in itertools.product(alpha, repeat=depth):
                 run.run(base, list(seq))
-        scope = ("all histories of length %d over %d operations (12 updates incl. empty / 5 strategies, 7 deletes in 6 argument "
+        scope = ("all histories of length %d over %d operations (13 updates incl. empty / 5 strategies, 7 deletes in 6 argument "
                  "forms, 5 add_relation, reopen) and of length %d over %d of them, on a 3-feature GFF3 file database; every "
                  "prefix checked; out of scope and cut: %s" % (plan[0][1], len(big), plan[1][1], len(small), dict(run.skipped)))
         U_.bounded_result("C10.bounded.histories",
@@ -730,7 +738,7 @@ def unit_counters(U_):
         for b in (base, base2):
             if b.problem:
                 run2.fail({"base": b.case()}, "create_db == model", b.problem)
-        n_hist = 2500 if U_.thorough else 170
+        n_hist = 1500 if U_.thorough else 170
         lo, hi = (4, 12) if U_.thorough else (4, 8)
         rng = U_.rng
         for i in range(n_hist):
@@ -928,23 +936,22 @@ def unit_backup(U_):
                           % (len(prefixes), nf),
                           cases, fails, distinct=len(distinct))
 
-        # ---- finding: an update directly after a rejected add_relation
-        run3 = Runner(d)
-        hs = [[A("g1", "exon_1", 2), U(S_EXON)],
-              [A("g1", "m1", 1, "feat"), U(S_G1A, "merge")],
-              [U(S_EXON), A("g1", "exon_2", 2), U(S_M2, "merge")]]
-        for h in hs:
-            m = base.model.copy()
-            m.allow.add("txn")
-            steps = []
-            for op in h:
-                kind = m.apply(op)
-                steps.append((op, kind, m.snapshot()))
-            run3.execute(base, steps)
+        # ---- an update directly after a rejected add_relation (was: OperationalError 'database is locked')
+        strict = Runner(d)
+        run3 = Runner(d, allow=("txn",))
+        small, big = alphabet(False), alphabet(True)
+        for alpha, depth in ((big, 2), (small, 4 if U_.thorough else 3)):
+            for seq in itertools.product(alpha, repeat=depth):
+                _, _, reason, _ = strict.plan(base, list(seq))
+                if reason == "rejected_relation_then_update":
+                    run3.run(base, list(seq))
         U_.bounded_result("C10.bounded.rejected_relation_then_update",
-                          "a rejected (duplicate) add_relation changes nothing, so a following update() behaves as the model says",
-                          "3 histories [... add_relation(existing row) -> IntegrityError, update(non-empty)] on a GFF3 file database",
-                          run3.cases, run3.fails, distinct=run3.cases)
+                          "a rejected (duplicate) add_relation changes nothing, so a following update() on the same FeatureDB "
+                          "object behaves as the model says (database == model after every step)",
+                          "all histories of length 2 over the %d operations and of length %d over %d operations of C10.bounded.histories "
+                          "in which a non-empty update follows a rejected add_relation with no commit / reopen in between"
+                          % (len(big), 4 if U_.thorough else 3, len(small)),
+                          run3.cases, run3.fails, exhaustive=True, distinct=len(run3.seen), sample=run3.sample)
 
 
 def backup_case(run, base, prefix, pre_model, op, must_fail, stale, explicit):
